@@ -111,3 +111,23 @@ pub proof fn lemma_dpack_offset{X}{S}(n: int)
         vstd::arithmetic::div_mod::lemma_fundamental_div_mod_converse(n + q - 1, q, a + 1, r - 1);
     }
 }
+/// the three ways of writing the step are the same word: a digit below 2^{W} cannot overlap the shifted word, and adding it cannot overflow
+pub proof fn lemma_shlw_forms{X}{S}(w: {I}, d: u8)
+    requires (d as int) < {WP}
+    ensures
+        (w << {W}) ^ (d as {I}) == (w << {W}) | (d as {I}),
+        (w << {W}) as int + (d as {I}) as int <= {I.max} as int,
+        ((w << {W}) as int + (d as {I}) as int) as {I} == (w << {W}) | (d as {I}),
+{
+    assert((w << {W}) ^ (d as {I}) == (w << {W}) | (d as {I})) by(bit_vector) requires d < {WP};
+    assert(add(w << {W}, d as {I}) == (w << {W}) | (d as {I})) by(bit_vector) requires d < {WP};
+    assert((w << {W}) <= {I.max} - ({WP} - 1)) by(bit_vector);
+}
+/// ... for every word at once (placed before the statement, so that `+` raises no overflow obligation)
+pub proof fn lemma_shlw_room{X}{S}()
+    ensures forall|w: {I}| #[trigger] (w << {W}) <= {I.max} - ({WP} - 1)
+{
+    assert forall|w: {I}| #[trigger] (w << {W}) <= {I.max} - ({WP} - 1) by {
+        assert((w << {W}) <= {I.max} - ({WP} - 1)) by(bit_vector);
+    }
+}
